@@ -108,7 +108,7 @@ def has_call_in_if_branch(t, inside=False):
     return any(has_call_in_if_branch(c, inside) for c in T.children(t))
 
 
-def check_phase(dag, pname, method, pipelines, info, envs, split=None):
+def check_phase(dag, pname, method, pipelines, info, envs, split=None, mode=None):
     import dagrt.codegen.transform as tr
     from dagrt.codegen.dag_ast import Block, StatementWrapper, create_ast_from_phase
     honour = split is not None
@@ -123,7 +123,16 @@ def check_phase(dag, pname, method, pipelines, info, envs, split=None):
         # carrying their own guards and loops; the statements before it only prepare the valuation
         seq = sorted(dag.phases[pname].statements, key=lambda s_: int(s_.id.rsplit("_", 1)[1]))
         k = min(split, max(len(seq) - 1, 0))
-        if split % 2 == 1:
+        if split >= 4:
+            # half of the time the cut falls right behind a flag assignment, so that the guarded statements of an
+            # if-block start the tail while the variables of their (hand-written-style) guard were set before it
+            starts = [i_ for i_ in range(1, len(seq))
+                      if type(seq[i_ - 1]).__name__ == "Assign" and seq[i_ - 1].assignee.startswith("<cond>")]
+            if starts:
+                k = starts[(split - 4) % len(starts)]
+        if mode is None:
+            mode = ["stmt", "stmt_inline", "lowered", "lowered_inline"][split % 4]      # older replay files
+        if mode.endswith("inline"):
             # hand-written style guards: the builder's flags replaced by the comparisons that define them
             from pymbolic import substitute
             from pymbolic.primitives import Variable
@@ -148,6 +157,25 @@ def check_phase(dag, pname, method, pipelines, info, envs, split=None):
                 n_ = ForLoop(ident, lo, hi, n_)
             return n_
         ast0 = Block(*[node(s_) for s_ in seq[k:]])
+        if mode.startswith("lowered") and len(seq) - k >= 1:
+            # third form: the same statements (with their possibly hand-written-style guards) lowered by
+            # create_ast_from_phase, so that guards and loops are nodes - a comparison guard inside a loop
+            # node then mentions variables that no statement of the tree mentions
+            import dagrt.language as lang
+            tail = seq[k:]
+            ids = {s_.id for s_ in tail}
+            sub_stmts = [s_.copy(depends_on=frozenset(d for d in s_.depends_on if d in ids)) for s_ in tail]
+            # keep program order where the dropped edges to the prefix made it implicit
+            chained = []
+            for pos, s_ in enumerate(sub_stmts):
+                chained.append(s_.copy(depends_on=s_.depends_on | (frozenset([sub_stmts[pos - 1].id]) if pos else frozenset())))
+            sub_phase = lang.ExecutionPhase(name=pname, next_phase=pname, statements=chained)
+            try:
+                ast0 = create_ast_from_phase(lang.DAGCode({pname: sub_phase}, pname), pname)
+            except Exception as e:
+                return "create_ast_from_phase raised %s on hand-written-style statements: %s" % (type(e).__name__, e)
+            honour = False
+            info["lowered_split"] = True
     stmts0 = astwalk.statements_of(ast0)
     names0 = set()
     for s in stmts0:
@@ -286,7 +314,7 @@ def check_case(case, pipelines=None):
         if m is not None:
             return "phase %s: %s" % (pname, m), info
         if case.get("split") is not None:
-            m = check_phase(dag, pname, method, pls, info, envs, split=case["split"])
+            m = check_phase(dag, pname, method, pls, info, envs, split=case["split"], mode=case.get("mode"))
             if m is not None:
                 return "phase %s, guarded statements after position %d: %s" % (pname, case["split"], m), info
     return None, info
@@ -314,19 +342,23 @@ def shrink(sub, case):
     pl = sig.split(" ")[0]
     pls = [pl] if pl in PIPELINES else None
     c = {"method": case["method"], "plan": {"max_steps": 1}}
-    out = shrink_method_case(c, lambda cc: check_case({"method": cc["method"], "split": case.get("split")}, pls)[0],
+    out = shrink_method_case(c, lambda cc: check_case({"method": cc["method"], "split": case.get("split"),
+                                                       "mode": case.get("mode")}, pls)[0],
                              sig_of, budget=200)
     r = {"method": out["method"]}
     if pls:
         r["pipelines"] = pls
     if case.get("split") is not None:
         r["split"] = case["split"]
+    if case.get("mode") is not None:
+        r["mode"] = case["mode"]
     return r
 
 
 def shard(ctx, n):
     excl_call_in_if = ctx.is_excluded("call_in_ifexpr_branch")
-    strat = st.fixed_dictionaries({"method": methods(PROFILE), "split": st.integers(0, 7)})
+    strat = st.fixed_dictionaries({"method": methods(PROFILE), "split": st.integers(0, 7),
+                                   "mode": st.sampled_from(["stmt", "stmt_inline", "lowered", "lowered_inline", "lowered_inline"])})
 
     def body(case):
         method = case["method"]
